@@ -129,11 +129,17 @@ def _verify_element(iface, name, desc, candidate, vtype):
 
     if isinstance(attr, FunctionType):
 
-        if isinstance(candidate, type) and vtype == 'c':
+        if (
+            isinstance(candidate, type) and vtype == 'c' and
+            not isinstance(
+                inspect.getattr_static(candidate, name, None), staticmethod
+            )
+        ):
             # This is an "unbound method".
             # Only unwrap this if we're verifying implementedBy;
             # otherwise we can unwrap @staticmethod on classes that directly
-            # provide an interface.
+            # provide an interface. (A @staticmethod of the class being
+            # verified takes no instance either.)
             meth = fromFunction(attr, iface, name=name, imlevel=1)
         else:
             # Nope, just a normal function
